@@ -1674,6 +1674,8 @@ func (m *Machine) recoverToErr(handler *handler, r recoveryData) {
 	// dont double handle an exception (no nesting)
 	mut := t.Mutation
 	if mut.IsCalled(iException) {
+		// the panicking handler loop is gone, always start a new one
+		go m.handlerLoop()
 		return
 	}
 
